@@ -1,3 +1,5 @@
+//go:build verif_c09
+
 package main
 
 // C09 — isolated evaluation of formula text (function × arity × argument-kind product,
